@@ -51,8 +51,9 @@ CLAUSE_PROP = {"EncBytes": "C11", "Order": "C11",
                "TextBounds": "C15", "EqualIff": "C15", "PrefixFree": "C15", "GuardFault": "C15", "Header": "C15"}
 CRASH_PROP = {"enc": "C11", "dec": "C12", "text": "C15"}
 
-_RE_REJECT = re.compile(r'<<"REJECT", (\d+), (\d+), "([^"]*)", (\d+), \{(.*?)\}>>', re.S)
-_RE_BAD = re.compile(r'<<(\d+), (\d+), "(\w+)">>')
+# TLC's pretty printer wraps long tuples over several lines
+_RE_REJECT = re.compile(r'<<\s*"REJECT",\s*(\d+),\s*(\d+),\s*"([^"]*)",\s*(\d+),\s*\{(.*?)\}\s*>>', re.S)
+_RE_BAD = re.compile(r'<<\s*(\d+),\s*(\d+),\s*"(\w+)"\s*>>')
 
 
 # ----------------------------------------------------------------------------
